@@ -215,7 +215,8 @@ func (p *untypedParamBinder) Bind(request *http.Request, routeParams RouteParams
 			file, header, ffErr := request.FormFile(p.parameter.Name)
 			if ffErr != nil {
 				if p.parameter.Required {
-					if stderrors.Is(ffErr, http.ErrMissingFile) {
+					if stderrors.Is(ffErr, http.ErrMissingFile) || stderrors.Is(ffErr, http.ErrNotMultipart) {
+						// a form that is not multipart cannot carry the file: it is missing
 						return errors.Required(p.Name, p.parameter.In, nil)
 					}
 					return errors.NewParseError(p.Name, p.parameter.In, "", ffErr)
